@@ -38,8 +38,8 @@ def row_facts(spec):
         u = spec['units'].get(c)
         if u is None:
             continue
-        chans.append({'units': u, 'fxn': spec['beads'] in ('B1', 'BI2'), 'same_inst': spec['beads'] != 'BI2',
-                      'has_mef': spec['beads'] == 'B1' and c in ('FL1', 'FL2'), 'amp': spec['file'] != 'lin.fcs', 'volt': spec['file'] != 'volt.fcs'})
+        chans.append({'units': u, 'fxn': spec['beads'] in ('B1', 'B1b', 'BI2'), 'same_inst': spec['beads'] != 'BI2',
+                      'has_mef': spec['beads'] in ('B1', 'B1b') and c in ('FL1', 'FL2'), 'amp': spec['file'] != 'lin.fcs', 'volt': spec['file'] != 'volt.fcs'})
     n = FILES[spec['file']]
     return {'file_found': n is not None, 'n_events': n or 0, 'beads_table': True, 'gate_ok': spec['gate'] == 'ok', 'channels': chans}
 
@@ -60,6 +60,8 @@ class Setup:
         ex.write_fcs('lin.fcs', 'FC001', n=600, voltage=450, log_fl=False, seed=seed + 22)
         self.instruments = ex.instruments_table()
         rows = [excelgen.beads_row('B1', 'FC001', 'beads1.fcs', channels=('FL1', 'FL2'), clustering=('FL1',)),
+                excelgen.beads_row('B1b', 'FC001', 'beads1.fcs', channels=('FL1', 'FL2'), clustering=('FL1',),
+                                   mef={'FL1': '400, 1400, 5000, 18000, 64000', 'FL2': 'None, 1800, 6000, 22000, 80000'}),
                 excelgen.beads_row('BNOMEF', 'FC001', 'beads1.fcs', channels=()),
                 excelgen.beads_row('BI2', 'FC002', 'beads2.fcs', channels=('GFP-A',), mef={'GFP-A': '200, 700, 2500, 9000, 32000'}),
                 excelgen.beads_row('BFAIL', 'FC001', 'missing_beads.fcs', channels=('FL1',))]
@@ -99,8 +101,8 @@ class Setup:
             return R(sid, 'FC001', 'volt.fcs', {'FL1': 'MEF'}, 'B1')
         raise ValueError(kind)
 
-    def process(self, rows):
-        st = excelgen.table(rows, columns=['Instrument ID', 'Beads ID', 'File Path', 'Gate Fraction', 'FL1 Units', 'FL2 Units', 'FL3 Units'])
+    def process(self, rows, table=None):
+        st = table if table is not None else excelgen.table(rows, columns=['Instrument ID', 'Beads ID', 'File Path', 'Gate Fraction', 'FL1 Units', 'FL2 Units', 'FL3 Units'])
         np.random.seed(11)
         with warnings.catch_warnings():
             warnings.simplefilter('ignore')
@@ -132,6 +134,9 @@ class Prop(common.PropertyCheck):
         kinds = list(SAMPLE_FAULTS)
         yield {'k': 'empty'}
         yield {'k': 'beads'}
+        # the same table analysed twice: rows that were healthy the first time fail the second time
+        for f in (['file_not_found', 'gate_fraction'], ['units']):
+            yield {'k': 'twice', 'second': f}
         order = list(kinds)
         rng.shuffle(order)
         nsingle = len(order) if self.tier == 'thorough' else len(order)
@@ -149,13 +154,17 @@ class Prop(common.PropertyCheck):
             n = rng.randrange(2, 6)
             rows = [rng.choice(kinds + ['ok', 'ok']) for _ in range(n)]
             yield {'k': 'table', 'rows': rows}
+        # the same file and units with different bead rows (healthy ones with other calibrations, faulty ones), after a healthy row
+        first = {'file': 's0.fcs', 'beads': 'B1', 'units': {'FL1': 'MEF', 'FL2': None, 'FL3': None}, 'gate': 'ok'}
+        for others in (['B1b', 'BNOMEF'], ['BFAIL', 'B1b', 'BI2'], ['B1b', 'B1']):
+            yield {'k': 'combo', 'rows': [first] + [dict(first, beads=b) for b in others]}
         # rows with several simultaneous faults: which one is reported is decided by the model's decision table
         for _ in range(self.budget(6, 80)):
             rows = []
             for _ in range(rng.randrange(2, 6)):
                 units = {c: rng.choice(UNIT_CELLS) for c in ('FL1', 'FL2', 'FL3')}
                 rows.append({'file': rng.choice(['s0.fcs', 's0.fcs', 's1.fcs', 'nope.fcs', 'small.fcs', 'volt.fcs', 'lin.fcs']),
-                             'beads': rng.choice(['B1', 'B1', 'BNOMEF', 'BFAIL', 'BI2']), 'units': units, 'gate': rng.choice(['ok', 'ok', 'bad'])})
+                             'beads': rng.choice(['B1', 'B1', 'B1b', 'BNOMEF', 'BFAIL', 'BI2']), 'units': units, 'gate': rng.choice(['ok', 'ok', 'bad'])})
             yield {'k': 'combo', 'rows': rows}
 
     def single(self, s, idx):
@@ -196,12 +205,53 @@ class Prop(common.PropertyCheck):
                     out['kinds'].append('fault:' + str(v) if isinstance(v, FlowCal.excel_ui.ExcelUIException) else 'ok')
                 out['g_same'] = fpm.sample_fp(bs['G1'])['array'] == fpm.sample_fp(bs['G2'])['array']
                 return out
+            if case['k'] == 'twice':
+                rows = [s.row('R%d' % i, 'ok', healthy_idx=i % 3) for i in range(3)]
+                st, res = s.process(rows)
+                with warnings.catch_warnings():
+                    warnings.simplefilter('ignore')
+                    FlowCal.excel_ui.add_samples_stats(st, res)
+                first_ok = not any(str(x).startswith('ERROR') for x in st['Analysis Notes'])
+                for i, f in enumerate(case['second']):
+                    rid = 'R%d' % (i + 1)
+                    if f == 'file_not_found':
+                        st.loc[rid, 'File Path'] = 'nope.fcs'
+                    elif f == 'gate_fraction':
+                        st.loc[rid, 'Gate Fraction'] = 1.5
+                    else:
+                        st.loc[rid, 'FL1 Units'] = 'furlongs'
+                st, res2 = s.process(None, table=st)
+                with warnings.catch_warnings():
+                    warnings.simplefilter('ignore')
+                    FlowCal.excel_ui.add_samples_stats(st, res2)
+                percol = [c for c in st.columns if any(c.endswith(x) for x in (' Mean', ' Median', ' Detector Volt.', ' Amp. Type', ' Geom. Mean', ' IQR', ' Mode', ' Std', ' CV', ' RCV'))]
+                out = {'first_ok': first_ok, 'rows': []}
+                for rid in st.index:
+                    v = res2[rid]
+                    out['rows'].append({'id': rid, 'fault': isinstance(v, FlowCal.excel_ui.ExcelUIException), 'note': str(st.loc[rid, 'Analysis Notes']),
+                                        'nev': None if pd.isnull(st.loc[rid, 'Number of Events']) else int(st.loc[rid, 'Number of Events']),
+                                        'filled': [c for c in percol if not (pd.isnull(st.loc[rid, c]) or st.loc[rid, c] == '')]})
+                return out
             if case['k'] == 'combo':
                 rows = [excelgen.sample_row('R%d' % i, 'FC001', r['file'], {c: u for c, u in r['units'].items() if u is not None}, r['beads'],
                                             gate_fraction=0.85 if r['gate'] == 'ok' else 1.5) for i, r in enumerate(case['rows'])]
                 st, res = s.process(rows)
-                return {'ids': list(res.keys()),
-                        'faults': [fault_of(str(v)) if isinstance(v, FlowCal.excel_ui.ExcelUIException) else 'none' for v in res.values()]}
+                out = {'ids': list(res.keys()),
+                       'faults': [fault_of(str(v)) if isinstance(v, FlowCal.excel_ui.ExcelUIException) else 'none' for v in res.values()], 'same_as_single': []}
+                # every healthy row equals its own single-row run
+                import json as _json
+                for row, r, v in zip(rows, case['rows'], res.values()):
+                    if isinstance(v, FlowCal.excel_ui.ExcelUIException):
+                        continue
+                    key = 'combo:' + _json.dumps(r, sort_keys=True)
+                    if key not in s.single_cache:
+                        _, one = s.process([dict(row, ID='solo')])
+                        s.single_cache[key] = fpm.sample_fp(one['solo']) if not isinstance(one['solo'], Exception) else None
+                    ref = s.single_cache[key]
+                    fp = fpm.sample_fp(v)
+                    out['same_as_single'].append(ref is not None and fp['array'] == ref['array'] and
+                                                 [x for x in fp['state'] if x[0] != 'infile'] == [x for x in ref['state'] if x[0] != 'infile'])
+                return out
             rows = []
             hidx = 0
             for i, kind in enumerate(case['rows']):
@@ -244,6 +294,18 @@ class Prop(common.PropertyCheck):
             return 'the batch aborted with %s for rows %s' % (impl['aborted'], case.get('rows', case['k']))
         if case['k'] == 'empty':
             return None if impl['empty'] else 'an empty table did not yield an empty result'
+        if case['k'] == 'twice':
+            if not impl['first_ok']:
+                return 'first analysis of a healthy table reported errors'
+            for i, r in enumerate(impl['rows']):
+                faulty = 1 <= i <= len(case['second'])
+                if faulty != r['fault']:
+                    return 'second analysis: row %s %s' % (r['id'], 'did not report its fault' if faulty else 'reported an error')
+                if faulty and (not r['note'].startswith('ERROR:') or r['nev'] is not None or r['filled']):
+                    return 'second analysis of the same table: failing row %s has note %r, events %s and non-empty statistics %s' % (r['id'], r['note'][:40], r['nev'], r['filled'][:4])
+                if not faulty and (r['note'].startswith('ERROR') or not r['filled']):
+                    return 'second analysis: healthy row %s lost its statistics' % r['id']
+            return None
         if case['k'] == 'beads':
             want = ['ok', 'file_not_found', 'too_few_events', 'gate_fraction', 'unequal_mef', 'unequal_mef', 'unequal_mef', 'ok']
             if impl['ids'] != ['G1', 'F1', 'F2', 'F3', 'F4', 'F5', 'F6', 'G2']:
@@ -271,6 +333,8 @@ class Prop(common.PropertyCheck):
                     return 'healthy row %d (%s) reported %s' % (i, r, f)
                 if not healthy and (f == 'none' or f.startswith('other:')):
                     return 'row %d (%s) has a documented fault but reported %s' % (i, r, f)
+            if not all(impl.get('same_as_single', [])):
+                return 'a healthy row differs from its single-row run in table %s' % rows
             return None
         for i, (kind, k) in enumerate(zip(rows, impl['kinds'])):
             note = impl['notes'][i]
